@@ -231,7 +231,8 @@ Variable func : c02_func F S.
 (* Rpre i G P s: at the head of iteration i the functor state s reflects the accumulated row operations G and the
    accumulated row permutation P; Rpost i: the same after the swap of iteration i *)
 Variable Rpre Rpost : nat -> 'M[F]_n -> 'M[F]_n -> S -> Prop.
-Hypothesis Rswap : forall G P s i im (Hi : (i < n)%N) (Him : (im < n)%N), (i <= im)%N -> Rpre i G P s ->
+Variable piv : bool.    (* doPivoting: the swap hypothesis is only needed when it is on *)
+Hypothesis Rswap : piv -> forall G P s i im (Hi : (i < n)%N) (Him : (im < n)%N), (i <= im)%N -> Rpre i G P s ->
   Rpost i (xrow (Ordinal Hi) (Ordinal Him) G) (xrow (Ordinal Hi) (Ordinal Him) P) (fswap func i im s).
 Hypothesis Rskip : forall G P s i, (i < n)%N -> Rpre i G P s -> Rpost i G P s.
 Hypothesis Relim : forall G P s i f, (i < n)%N -> Rpost i G P s ->
@@ -249,17 +250,17 @@ Lemma invg_weaken (Rx Ry : 'M[F]_n -> 'M[F]_n -> S -> Prop) i st :
   (forall G P s, Rx G P s -> Ry G P s) -> invg Rx i st -> invg Ry i st.
 Proof. by move=> H [wA Hd [G [P [uG UG LG RG]]]]; split=> //; exists G, P; split=> //; apply: H. Qed.
 
-Definition step_post (piv : bool) i (r : c02_lures (seq (seq F) * S)) :=
+Definition step_post i (r : c02_lures (seq (seq F) * S)) :=
   match r with
   | C02_LU_Ok st' => inv i.+1 st'
-  | C02_LU_Singular st' => [/\ invg (fun _ _ _ => True) i st', get st'.1 i i = 0
+  | C02_LU_Singular st' => [/\ invg (Rpost i) i st', get st'.1 i i = 0
                              & piv -> forall k, (i <= k < n)%N -> get st'.1 k i = 0]
   | C02_LU_DivByZero => False
   end.
 
-Lemma lu_step_tail (piv : bool) i A1 s1 : (i < n)%N -> invg (Rpost i) i (A1, s1) ->
+Lemma lu_step_tail i A1 s1 : (i < n)%N -> invg (Rpost i) i (A1, s1) ->
   (get A1 i i = 0 -> piv -> forall k, (i <= k < n)%N -> get A1 k i = 0) ->
-  step_post piv i
+  step_post i
    (if oabsz ops (get A1 i i) then C02_LU_Singular (A1, s1)
     else if Nat.ltb i.+1 n && ois0 ops (get A1 i i) then C02_LU_DivByZero
     else C02_LU_Ok (c02_eliminate ops n A1 i,
@@ -267,7 +268,7 @@ Lemma lu_step_tail (piv : bool) i A1 s1 : (i < n)%N -> invg (Rpost i) i (A1, s1)
 Proof.
 move=> Hi Hinv Hcol; rewrite /= absr0.
 case: (altP (get A1 i i =P 0)) => [H0|Hnz] /=.
-  by split=> //; [apply: invg_weaken Hinv|apply: Hcol].
+  by split=> //; apply: Hcol.
 rewrite andbF /=.
 case: Hinv => /= wA Hd [G [P [uG UG LG RG]]]; split=> /=.
 - exact: wfm_eliminate.
@@ -281,10 +282,10 @@ case: Hinv => /= wA Hd [G [P [uG UG LG RG]]]; split=> /=.
   + exact: Relim.
 Qed.
 
-Lemma lu_step_inv piv i st : (i < n)%N -> inv i st -> step_post piv i (c02_lu_step ops func n piv i st).
+Lemma lu_step_inv i st : (i < n)%N -> inv i st -> step_post i (c02_lu_step ops func n piv i st).
 Proof.
 case: st => A s Hi Hinv; rewrite /c02_lu_step.
-case: piv.
+case Epiv: piv (Rswap) => Rswap'.
   case: (pivsearch_spec A Hi) => /=; set im := (c02_pivsearch ops n A i).2 => Hpm /andP [Hle Him] Hmax.
   apply: lu_step_tail => //.
   - case: Hinv => /= wA Hd [G [P [uG UG LG RG]]]; split=> /=.
@@ -298,7 +299,7 @@ case: piv.
       * by rewrite (Uv_swap Hi Him) // UG !xrowE mulmxA.
       * rewrite (Lv_swap Hi Him) // !xrowE xcolE -LG -!mulmxA; congr (_ *m (_ *m _)).
         by rewrite mulmxA tperm_mx_sq mul1mx.
-      * exact: Rswap.
+      * exact: (Rswap' isT).
   - rewrite get_swaprows eqxx; case: (i =P im) => [E|_] Hz _ k Hk.
       rewrite get_swaprows; apply/eqP; rewrite -absr0 -leqn0.
       have Hpz : absr (c02_pivsearch ops n A i).1 = 0%N.
@@ -310,24 +311,24 @@ case: piv.
       by apply/eqP; rewrite absr0 Hpm -/im Hz.
     rewrite -Hpz; apply: Hmax.
     by case: ifP => _; [|case: ifP => _]; lia.
-apply: lu_step_tail => //.
+apply: lu_step_tail => //; last by rewrite Epiv.
 by apply: invg_weaken Hinv => G P s'; apply: Rskip.
 Qed.
 
-Definition loop_post (piv : bool) i (r : c02_lures (seq (seq F) * S)) :=
+Definition loop_post i (r : c02_lures (seq (seq F) * S)) :=
   match r with
   | C02_LU_Ok st' => inv n st'
   | C02_LU_Singular st' => exists2 i', (i <= i' < n)%N &
-      [/\ invg (fun _ _ _ => True) i' st', get st'.1 i' i' = 0 & piv -> forall k, (i' <= k < n)%N -> get st'.1 k i' = 0]
+      [/\ invg (Rpost i') i' st', get st'.1 i' i' = 0 & piv -> forall k, (i' <= k < n)%N -> get st'.1 k i' = 0]
   | C02_LU_DivByZero => False
   end.
 
-Lemma lu_loop_inv piv len : forall i st, (i + len = n)%N -> inv i st ->
-  loop_post piv i (c02_lu_loop ops func n piv (iota i len) st).
+Lemma lu_loop_inv len : forall i st, (i + len = n)%N -> inv i st ->
+  loop_post i (c02_lu_loop ops func n piv (iota i len) st).
 Proof.
 elim: len => [|len IH] i st Hn Hinv /=; first by rewrite -Hn addn0.
 have Hi : (i < n)%N by lia.
-have := lu_step_inv piv Hi Hinv.
+have := lu_step_inv Hi Hinv.
 case: (c02_lu_step ops func n piv i st) => [st'|st'|] //=.
 - move=> Hinv'; have := IH i.+1 st' _ Hinv'.
   case: (c02_lu_loop _ _ _ _ _ _) => [st''|st''|] //=; first by apply; lia.
@@ -350,10 +351,10 @@ Hypothesis Relim : forall G s i f, (i < n)%N -> R G s ->
 Variable A0 : 'M[F]_n.
 Definition inv1 := invg A0 (fun G (_ : 'M[F]_n) s => R G s).
 Lemma lu_loop_inv1 piv len i st : (i + len = n)%N -> inv1 i st ->
-  loop_post (fun _ G (_ : 'M[F]_n) s => R G s) A0 piv i (c02_lu_loop ops func n piv (iota i len) st).
+  loop_post (fun _ G (_ : 'M[F]_n) s => R G s) (fun _ G (_ : 'M[F]_n) s => R G s) piv A0 i (c02_lu_loop ops func n piv (iota i len) st).
 Proof.
-apply: (@lu_loop_inv S func (fun _ G _ s => R G s) (fun _ G _ s => R G s)) => //.
-- by move=> G P s i0 im Hi Him Hle; apply: Rswap.
+apply: (@lu_loop_inv S func (fun _ G _ s => R G s) (fun _ G _ s => R G s) piv) => //.
+- by move=> _ G P s i0 im Hi Him Hle; apply: Rswap.
 - by move=> G P s i0 f Hi; apply: Relim.
 Qed.
 End Loop1.
@@ -525,7 +526,7 @@ by have -> : (n == 3)%N = false by lia.
 Qed.
 
 Lemma lu_Elim_inv A b piv : wfm n A -> size b = n ->
-  loop_post (fun _ G (_ : 'M[F]_n) s => R_Elim (cv b) G s) (mx A) piv 0 (c02_lu ops (c02_Elim ops) n piv A (mkseq (vget b) n)).
+  loop_post (fun _ G (_ : 'M[F]_n) s => R_Elim (cv b) G s) (fun _ G (_ : 'M[F]_n) s => R_Elim (cv b) G s) piv (mx A) 0 (c02_lu ops (c02_Elim ops) n piv A (mkseq (vget b) n)).
 Proof.
 move=> wA Hb; apply: (lu_loop_inv1 (@R_Elim_swap (cv b)) (@R_Elim_elim (cv b))) => //.
 apply: inv0 => //; split; first by rewrite size_mkseq.
@@ -596,7 +597,7 @@ by rewrite -(big_mkord xpredT (fun i => get A' i i)) /index_iota subn0.
 Qed.
 
 Lemma lu_Det_inv A piv : wfm n A ->
-  loop_post (fun _ G (_ : 'M[F]_n) s => R_Det G s) (mx A) piv 0 (c02_lu ops (c02_ElimDet ops) n piv A 1).
+  loop_post (fun _ G (_ : 'M[F]_n) s => R_Det G s) (fun _ G (_ : 'M[F]_n) s => R_Det G s) piv (mx A) 0 (c02_lu ops (c02_ElimDet ops) n piv A 1).
 Proof.
 move=> wA; apply: (lu_loop_inv1 R_Det_swap R_Det_elim) => //.
 by apply: inv0 => //; rewrite /R_Det det1 mulr1.
